@@ -440,6 +440,76 @@ def degenerate_cases():
             yield {'kind': kind, 'text': t, 'this': DEG_THIS, 'aliases': {'A': DEG_THIS, 'B': DEG_THIS}}
 
 
+SLOT_THIS = {
+    'fields': {
+        'i': ('num', 'int32'), 'x': ('num', 'int32'), 'p': ('bool',),
+        'xs': ('arr', ('num', 'int32'), -1), 'ys': ('arr', ('num', 'int32'), -1),
+        'ps': ('arr', ('msg', {'fields': {'x': ('num', 'int32'), 'ys': ('arr', ('num', 'int32'), -1)}, 'consts': {}}), -1),
+        'm': ('msg', {'fields': {'x': ('num', 'int32'), 'xs': ('arr', ('num', 'int32'), -1)}, 'consts': {}}),
+    },
+    'consts': {},
+}
+SLOT_ALIASES = {
+    'A': {'fields': {'i': ('num', 'int32'), 'x': ('num', 'int32'), 'xs': ('arr', ('num', 'int32'), -1)}, 'consts': {}},
+    'Z': {'fields': dict(SLOT_THIS['fields']), 'consts': {}},
+}
+
+
+def slot_table_cases():
+    """The replaced reference mentioned exactly once, in every kind of slot - in particular as an index in the MIDDLE of an
+    accessor chain (`ps[R].x`, `@Z.ps[R].ys[0]`), inside nested indices, range bounds, set elements, call arguments,
+    quantifier domains and bodies - under an own-message root and under another alias. R is a field of the current
+    message (for this -> variable) or of @A (for variable -> this)."""
+    from hplverif.mast import binop, own
+
+    zero, one = ('lit', 'int', '0'), ('lit', 'int', '1')
+    gt = lambda a, b: binop('>', a, b)  # noqa: E731
+
+    def contexts(R, root):
+        ps = ('field', root, 'ps')
+        xs = ('field', root, 'xs')
+        ys = ('field', root, 'ys')
+        yield 'chain-middle-index', gt(('field', ('index', ps, R), 'x'), zero)
+        yield 'chain-middle-index-deep', gt(('index', ('field', ('index', ps, R), 'ys'), zero), zero)
+        yield 'chain-last-index', gt(('index', xs, R), zero)
+        yield 'nested-index', gt(('index', xs, ('index', ys, R)), zero)
+        yield 'index-arithmetic', gt(('index', xs, binop('+', R, one)), zero)
+        yield 'index-in-call', gt(('call', 'abs', ('index', xs, R)), zero)
+        yield 'range-low', binop('in', one, ('range', R, ('lit', 'int', '5'), False, False))
+        yield 'range-high', binop('in', one, ('range', zero, R, True, False))
+        yield 'set-element', binop('in', one, ('set', (zero, R)))
+        yield 'call-of-set', gt(('call', 'max', ('set', (R, one))), zero)
+        yield 'call-of-range', gt(('call', 'len', ('range', zero, R, False, False)), zero)
+        yield 'quantifier-domain-chain', ('q', 'forall', 'k', ('field', ('index', ps, R), 'ys'), gt(('var', 'k'), zero))
+        yield 'quantifier-domain-range', ('q', 'exists', 'k', ('range', zero, R, False, True), gt(('index', xs, ('var', 'k')), zero))
+        yield 'quantifier-body-index', ('q', 'forall', 'k', xs, gt(('index', ys, R), ('var', 'k')))
+        yield 'unary', gt(('un', '-', R), zero)
+        yield 'under-not', ('un', 'not', gt(('index', xs, R), zero))
+
+    for rname, R, alias in (('this-field', own('i'), None), ('alias-field', ('field', ('var', 'A'), 'i'), 'A')):
+        for rootname, root in (('own-root', ('this',)), ('alias-root', ('var', 'Z'))):
+            if alias is None and rootname == 'own-root':
+                # the root itself is also the current message: R is then not the only mention, still a valid case
+                pass
+            for slot, m in contexts(R, root):
+                yield {'kind': 'condition', 'text': mast.render(m), 'this': SLOT_THIS, 'aliases': SLOT_ALIASES, 'alias': alias,
+                       'slot': f'{slot}:{rname}:{rootname}'}
+
+
+def run_slot_table(ctx):
+    with ctx.timed('slot-table'):
+        for inp in slot_table_cases():
+            for sub, name in ((sub_this_to_var, 'this_to_var'), (sub_var_to_this, 'var_to_this')):
+                case = dict(inp, alias=inp['alias'] or 'A')
+                try:
+                    r = sub(case, 48)
+                except Violation as v:
+                    ctx.report(v)
+                    r = 'violation'
+                ctx.case(('slot', name, inp['text']), True, f'slot-table:{name}:{r}')
+    ctx.exhaustive['substitution-slot-table'] = True
+
+
 def run_degenerate(ctx):
     for inp in degenerate_cases():
         for alias in ('A', 'B', 'Zq'):
@@ -481,6 +551,7 @@ def shard(ctx, shard_no, nshards, n):
 
 def run(ctx):
     run_degenerate(ctx)
+    run_slot_table(ctx)
     run_join_table(ctx, 32)
     if ctx.tier == 'quick':
         core.run_sharded(ctx, __name__, 'shard', 1, (1000,))
